@@ -2139,7 +2139,7 @@ func (l *Loader) loadByContext(ctx context.Context, source DataSource, fetchItem
 		}
 
 		if item.err != nil {
-			if ctx.Err() == nil && errors.Is(item.err, context.Canceled) {
+			if ctx.Err() == nil && (item.leaderGone || errors.Is(item.err, context.Canceled)) {
 				// The leader's client went away. Its cancellation is not ours:
 				// perform the load on our own instead of failing with it.
 				return l.loadByContextDirect(ctx, source, headers, input, res)
@@ -2174,6 +2174,7 @@ func (l *Loader) loadByContext(ctx context.Context, source DataSource, fetchItem
 	// Perform the actual load
 	err := l.loadByContextDirect(ctx, source, headers, input, res)
 	if err != nil {
+		item.leaderGone = ctx.Err() != nil
 		item.err = err
 		return err
 	}
